@@ -40,7 +40,6 @@ ASSUME ndJsonSerialize(IOEnv.KINDS, KindRows)
 ASSUME ndJsonSerialize(IOEnv.SCRIPTS, ScriptRows)
 ASSUME ndJsonSerialize(IOEnv.PAIRS, PairRows \o AliasRows)
 ASSUME PrintT(<<"EMITTED", NK, NK * NK + NK>>)
-VARIABLE dummy
-EnumInit == Init /\ dummy = 0
-EnumNext == UNCHANGED <<vars, dummy>>
+\* stand-alone use (no exploration); MCProblemKindLattice extends this module, so that the T1 run also emits the cases
+EnumNext == UNCHANGED vars
 =============================================================================
